@@ -138,3 +138,104 @@ def _serde_json_escape(repo):
     lean = (f"-- serde_json {ver}\n"
             "def jsonEscapeTable : List Nat := [" + ", ".join(map(str, tbl)) + "]")
     return {"version": ver, "table": tbl}, lean
+
+
+@item("VALUE_SERIALIZE_LENGTHS")
+def _value_serialize_lengths(repo):
+    """what `impl Serialize for Value` announces to an external serializer"""
+    src = read(repo, "minijinja/src/value/mod.rs")
+    body = fn_body(src, r"impl serde::Serialize for Value\s*\{")
+    m = re.search(r"ObjectRepr::Seq \| ObjectRepr::Iterable => \{(.*?)seq\.end\(\)", body, re.S)
+    if not m:
+        raise KeyError("Seq/Iterable branch of Value::serialize")
+    seq = m.group(1)
+    ms = re.search(r"serializer\.serialize_seq\(([^;]*?)\)\)?;", seq)
+    if not ms:
+        raise KeyError("serialize_seq call")
+    seq_len = re.sub(r"\s+", "", ms.group(1))
+    if not re.search(r"if let Some\(iter\) = o\.try_iter\(\)\s*\{\s*for item in iter\s*\{\s*ok!\(seq\.serialize_element\(&item\)\);", seq):
+        raise KeyError("elements of the sequence are no longer exactly the items of o.try_iter()")
+    m = re.search(r"ObjectRepr::Map => \{(.*?)map\.end\(\)", body, re.S)
+    if not m:
+        raise KeyError("Map branch of Value::serialize")
+    mm = re.search(r"serializer\.serialize_map\(([^;]*?)\)\)?;", m.group(1))
+    if not mm:
+        raise KeyError("serialize_map call")
+    map_len = re.sub(r"\s+", "", mm.group(1))
+    lean = (f"def valueSerSeqLen : String := {lean_str(seq_len)}\n"
+            f"def valueSerMapLen : String := {lean_str(map_len)}")
+    return {"seq": seq_len, "map": map_len}, lean
+
+
+@item("ENUMERATOR_QUERY_LEN")
+def _enumerator_query_len(repo):
+    src = read(repo, "minijinja/src/value/object.rs")
+    body = fn_body(src, r"fn query_len\(&self\) -> Option<usize>\s*\{")
+    rules = []
+    for var, rhs in re.findall(r"Enumerator::(\w+)(?:\([^)]*\))?\s*=>\s*(.*?)(?=,\s*Enumerator::|\s*\}\)\s*$)", body, re.S):
+        rhs = re.sub(r"\s+", " ", rhs.strip())
+        if rhs == "0":
+            rule = "zero"
+        elif rhs in ("v.len()",):
+            rule = "len"
+        elif rhs == "*v":
+            rule = "n"
+        elif rhs.startswith("return None"):
+            rule = "none"
+        elif re.fullmatch(r"match i\.size_hint\(\) \{ \(a, Some\(b\)\) if a == b => a, _ => return None, \}", rhs):
+            rule = "exact_hint"
+        else:
+            raise KeyError(f"query_len arm {var} => {rhs}")
+        rules.append((var, rule))
+    if len(rules) < 9:
+        raise KeyError(f"query_len arms: {rules}")
+    d = fn_body(src, r"fn enumerator_len\(self: &Arc<Self>\) -> Option<usize>\s*\{")
+    if re.sub(r"\s+", "", d) != "self.enumerate().query_len()":
+        raise KeyError("default Object::enumerator_len")
+    lean = ("def enumeratorQueryLen : List (String × String) := ["
+            + ", ".join(f"({lean_str(a)}, {lean_str(b)})" for a, b in sorted(rules)) + "]")
+    return sorted(rules), lean
+
+
+@item("SERDE_JSON_COMPOUND")
+def _serde_json_compound(repo):
+    """the parts of serde_json's serializer the length contract matters for"""
+    ver, src = _serde_json_src(repo)
+    seq = fn_body(src, r"fn serialize_seq\(self, len: Option<usize>\) -> Result<Self::SerializeSeq>\s*\{")
+    mp = fn_body(src, r"fn serialize_map\(self, len: Option<usize>\) -> Result<Self::SerializeMap>\s*\{")
+    shortcut = all(re.search(r"if len == Some\(0\)\s*\{[^}]*end_" + k + r"\(&mut self\.writer\)", b, re.S) and "State::Empty" in b
+                   for k, b in (("array", seq), ("object", mp)))
+    end = re.search(r"impl<'a, W, F> ser::SerializeSeq for Compound<'a, W, F>.*?fn end\(self\) -> Result<\(\)>\s*\{(.*?)\n    \}", src, re.S)
+    if not end or not re.search(r"State::Empty => Ok\(\(\)\),\s*_ => ser\.formatter\.end_array", end.group(1)):
+        raise KeyError("serde_json SerializeSeq::end")
+    if not re.search(r"begin_array_value\(&mut ser\.writer, \*state == State::First\)", src):
+        raise KeyError("serde_json serialize_element")
+    pretty = re.search(r"impl<'a> Formatter for PrettyFormatter<'a>\s*\{(.*?)\n\}", src, re.S)
+    if not pretty:
+        raise KeyError("PrettyFormatter")
+    p = pretty.group(1)
+    counter = bool(re.search(r"fn end_array<W>.*?self\.current_indent -= 1;.*?if self\.has_value \{", p, re.S)
+                   and re.search(r"fn begin_array<W>.*?self\.current_indent \+= 1;\s*self\.has_value = false;", p, re.S)
+                   and re.search(r"fn end_array_value<W>.*?self\.has_value = true;", p, re.S))
+    lean = (f"def serdeJsonEmptyShortcut : Bool := {'true' if shortcut else 'false'}\n"
+            f"def serdeJsonPrettyCounter : Bool := {'true' if counter else 'false'}")
+    return {"version": ver, "empty_shortcut": shortcut, "pretty_counter": counter}, lean
+
+
+@item("SERIALIZATION_FLAG_GUARD")
+def _serialization_flag_guard(repo):
+    src = read(repo, "minijinja/src/value/mod.rs")
+    m = re.search(r"static LAST_VALUE_HANDLE: Cell<u(\d+)>", src)
+    if not m:
+        raise KeyError("LAST_VALUE_HANDLE")
+    bits = int(m.group(1))
+    if "x.get().wrapping_add(1)" not in src:
+        raise KeyError("value handle counter increment")
+    conv = fn_body(src, r"impl<T: serde::Serialize> From<Serde<T>> for Value\s*\{")
+    drop = fn_body(src, r"impl Drop for InternalSerializationGuard<'_>\s*\{")
+    restores = bool(re.search(r"let old = flag\.replace\(true\);", conv)
+                    and re.search(r"reset_on_drop:\s*!old", conv)
+                    and re.search(r"if self\.reset_on_drop\s*\{\s*self\.flag\.set\(false\);\s*\}", drop))
+    lean = (f"def valueHandleBits : Nat := {bits}\n"
+            f"def serializationGuardRestores : Bool := {'true' if restores else 'false'}")
+    return {"handle_bits": bits, "guard_restores": restores}, lean
